@@ -4,6 +4,8 @@ crash.
 -/
 import CoapLite.Lemmas.CodecInv
 import CoapLite.Lemmas.CodecFwd
+import CoapLite.Lemmas.Shape.Packet
+import CoapLite.Lemmas.Shape.Global
 
 namespace CoapLite.C03
 open CoapLite Codec Spec
@@ -91,5 +93,20 @@ theorem reject_number_overflow (b0 b1 b2 b3 : UInt8) (tok : Bytes) (os : List (N
     (hover : (os.getLast?.map (·.1)).getD 0 + delta > 65535) :
     (dec (Framed b0 b1 b2 b3 tok os (hb :: tail))).isErr = true :=
   Codec.reject_number_overflow b0 b1 b2 b3 tok os hb tail delta r htk ht hos hff hd hover
+
+/-! ### tie to the source: the state the model carries is the state the code carries
+
+`Shapes.*` (Generated/Shapes.lean) is re-read from /repo/src on every run: the field lists of the
+structs this property's model mirrors, and every construct that introduces state outside the values
+the API passes around (thread-locals, `static mut`, cells, locks, atomics). The model accounts for
+exactly these fields (Lemmas/Shape/*.lean say which model field mirrors which); a field or a
+global added to the code – a memo, a marker, a digest in place of the data – breaks this theorem
+even if no explored input behaves differently. -/
+theorem state_shape_matches_source :
+    Shapes.globalState = [] ∧
+    Shapes.packet = [("header", "Header"), ("token", "Vec<u8>"), ("options", "BTreeMap<u16,LinkedList<Vec<u8>>>"), ("payload", "Vec<u8>")] ∧
+    Shapes.header = [("ver_type_tkl", "u8"), ("code", "MessageClass"), ("message_id", "u16")] ∧
+    Shapes.headerRaw = [("ver_type_tkl", "u8"), ("code", "u8"), ("message_id", "u16")] :=
+  ⟨ShapeTie.no_global_state, ShapeTie.packet, ShapeTie.header, ShapeTie.headerRaw⟩
 
 end CoapLite.C03
